@@ -121,7 +121,9 @@ def c17Ops (args : List String) : String :=
         let ch := fun (op : Op) => chronoOp rne op d1 d2
         let opsStr := " ".intercalate (Op.all.map (fun op =>
           s!"au_{op.name}={c17ResStr (au op)} ch_{op.name}={c17ResStr (ch op).val}"))
-        s!"compiles={comp} crep={cr.name} cnum={(Mag.numerator cm).natValue} cden={(Mag.denominator cm).natValue} " ++
+        let pol := match (if leftIsQ then policyCompiles q1 q2 else policyCompiles q1 q2) with
+          | .ok () => "ok" | .hard _ => "hard"
+        s!"compiles={comp} policy={pol} crep={cr.name} cnum={(Mag.numerator cm).natValue} cden={(Mag.denominator cm).natValue} " ++
         s!"k1={if k1.isInteger then toString k1.natValue else "-"} k2={if k2.isInteger then toString k2.natValue else "-"} " ++
         s!"cpn={cp.num} cpd={cp.den} narrowed={b01 (ch Op.eq).narrowed} " ++ opsStr
       | _, _ => "bad-op"
